@@ -72,7 +72,7 @@ def _case(draw, unit):
     return {
         'dim': dim, 'wave': w, 'wave_row': w2, 'mode': mode, 'J': J, 'size': size,
         'N': draw(st.sampled_from([1, 1, 2, 3, 3, 9])),
-        'C': draw(st.sampled_from([1, 1, 2, 3, 5, 17])) if not large else draw(st.sampled_from([1, 2])),
+        'C': draw(st.sampled_from([1, 1, 2, 3, 5, 17, 33])) if not large else draw(st.sampled_from([1, 2])),
         'dtype': draw(st.sampled_from(['f64', 'f64', 'f64', 'f64', 'f32'])),
         'wave_form': draw(st.sampled_from(['name', 'name', 'name', 'object', 'tuple', 'tuple'])),
         # tuple forms: 1-D arrays, plain lists, or (L,1) column arrays (what the low-level code itself produces)
@@ -289,6 +289,7 @@ def _run_case(case):
     if not ok:
         return r.fail(out2.bucket, 'forward raised on dense input: %s' % out2)
     y_impl = _flat(*out2)
+    snap2 = dwtu.snapshot_out(out2)
     if f32:
         x = x.astype(np.float32).astype(np.float64)
     ryl, ryh = reffn(x, refw, mode, J)
@@ -316,6 +317,9 @@ def _run_case(case):
     y_rec = _flat(*out3)
     if y_rec.shape != y_impl.shape or not core.close(y_rec, y_impl, (4 * core.EPS32 if f32 else 1e-13) * scale2)[0]:
         r.fail('depends_on_autograd_recording:dim%d' % dim, 'coefficients differ between a plain call and a call whose input requires grad')
+    # the module is used again on other data: what the dense call returned stays as it was
+    lib(mod, torch.tensor(x[..., ::-1].copy() * 0.5 + 1.0, dtype=tdt))
+    dwtu.returned_intact(r, out2, snap2, 'forward DWT')
     return r
 
 LEVEL_TEXT = ('Generated-input search: for each generated configuration the whole '
